@@ -149,7 +149,7 @@ impl Model {
             notes: vec![],
             check_replies: matches!(p, "C06" | "C14"),
             check_forwards: matches!(p, "C01" | "C06" | "C08" | "C09" | "C14" | "C15" | "C16" | "C17" | "C20"),
-            check_retained: matches!(p, "C15" | "C16" | "C08"),
+            check_retained: matches!(p, "C15" | "C16" | "C08" | "C20"),
             check_props: p == "C20",
             check_session: p == "C08",
             strict_close: true,
